@@ -420,8 +420,12 @@ def check_laws_on(run, l, rng=None):
                          expr, l, kind, a, repr(want))
         # --- a let-bound re-iterable collection: every traversal sees all elements from the start,
         #     also while another traversal of the same collection is suspended
-        binders = [("$.memorize()", L)] + ([("$", L), ("$.toList()", L)] if kind == "tuple" else [])
-        binders += [("$.orderBy($)", sorted(L)), ("$.where($ != 77).memorize()", L), ("$.select($ + 1).memorize()", [x + 1 for x in L])]
+        if kind == "tuple":
+            binders = [("$", L), ("$.memorize()", L), ("$.orderBy($)", sorted(L))]
+        else:
+            binders = [("$.memorize()", L), ("$.select($ + 1).memorize()", [x + 1 for x in L])]
+        if rng is not None:
+            binders = [rng.choice(binders)]
         for bind, c in binders:
             exps = [("$m.zip($m)", tuple((x, x) for x in c)),
                     ("$m.select($m.count())", tuple(len(c) for _ in c)),
